@@ -141,7 +141,7 @@ for _v in KEY_TO_FEATS.values():
 
 # ------------------------------------------------------------------- generator
 
-KEY_CATS = ([["med", "T", "visc", "vm", "lut"]] * 3
+KEY_CATS = ([["med", "T", "visc", "vm", "vm", "lut"]] * 4
             + [["px", "px", "px", "flow", "width", "region"]] * 4
             + [["fr"]] * 3 + [["uk", "um"]] * 2 + [CT] * 6)
 
@@ -160,13 +160,13 @@ def _vidx(draw, key):
 @st.composite
 def st_op(draw):
     kind = draw(st.sampled_from(
-        ["set"] * 9 + ["del"] * 2 + ["temp"] * 4 + ["ctemp", "plug", "plug", "unplug",
+        ["set"] * 9 + ["del"] * 2 + ["temp"] * 4 + ["ctemp", "ctemp", "plug", "plug", "unplug",
                                                      "filter"]
         + ["read"] * 7 + ["has"] * 2 + ["features"] + ["cread"] * 3 + ["chas"]))
     if kind in ("set", "del"):
         key = draw(st.sampled_from(draw(st.sampled_from(KEY_CATS))))
         then = None
-        if draw(st.integers(0, 9)) < (9 if key in CT else 6):
+        if draw(st.integers(0, 9)) < (9 if key in CT or key == "vm" else 6):
             then = draw(st.sampled_from(KEY_TO_FEATS[key]))
         if kind == "set":
             return ["set", key, _vidx(draw, key), then]
